@@ -81,6 +81,9 @@ class Atomizer:
             who, path = acc
             if path == "has_fixed_port_id":
                 return A("%s_HAS" % who.upper())
+            if path == "fixed_port_id":
+                # truthiness of an Optional[int]: present and non-zero (0 is a valid subject- and service-ID)
+                return f_and(A("%s_HAS" % who.upper()), f_not(A("%s_FPID_ZERO" % who.upper())))
         if isinstance(e, ast.Compare) and len(e.ops) == 1:
             l, op, r = e.left, e.ops[0], e.comparators[0]
             la, ra = _canon_access(l), _canon_access(r)
@@ -139,6 +142,21 @@ class Atomizer:
         raise AnalysisError("%s: condition outside the C11 abstraction: %s" % (self.fn.qualname, norm(e)))
 
 
+ZERO_ATOMS = ["A_FPID_ZERO", "B_FPID_ZERO"]
+
+
+def _zero_consistent(v: Dict[str, bool]) -> bool:
+    """x_FPID_ZERO (port-ID == 0; appears only when the code tests a port-ID's truthiness) versus HAS / FPID_NEQ"""
+    az, bz = v.get("A_FPID_ZERO", False), v.get("B_FPID_ZERO", False)
+    if (az and not v["A_HAS"]) or (bz and not v["B_HAS"]):
+        return False
+    if az and bz and v["FPID_NEQ"]:
+        return False
+    if v["A_HAS"] and v["B_HAS"] and az != bz and not v["FPID_NEQ"]:
+        return False
+    return True
+
+
 def _exc_name(ctx: Ctx, fn: FuncInfo, p: Path) -> Tuple[str, bool]:
     k = exc_class_of(ctx.repo, fn.module, fn.cls, p.value)
     if isinstance(k, ClassInfo):
@@ -179,6 +197,7 @@ def rule_r1(ctx: Ctx) -> None:
 
     err = err_formula()
     atoms = ["NAME_NEQ", "MAJOR_NEQ", "A_SVC", "B_SVC", "A_REL", "B_REL", "A_HAS", "B_HAS", "FPID_NEQ"]
+    atoms += [a for a in ZERO_ATOMS if a in f_atoms(err)]
     extra = [a for a in f_atoms(err) if a not in atoms]
     if extra:
         raise AnalysisError("%s: atoms outside the vocabulary: %s" % (fn.qualname, extra))
@@ -190,7 +209,7 @@ def rule_r1(ctx: Ctx) -> None:
             return False
         if v["MAJOR_NEQ"] and not v["A_REL"] and not v["B_REL"]:
             return False  # both majors are 0
-        return True
+        return _zero_consistent(v)
 
     bad = []
     n = 0
@@ -244,6 +263,7 @@ def rule_r2(ctx: Ctx) -> None:
                 used.append(a)
     # `elif a.version.major > 0` may equally be spelled on b (majors are equal in a compared pair)
     used = ["A_REL" if a == "B_REL" else a for a in used]
+    atoms += [a for a in ZERO_ATOMS if a in used]
     extra = [a for a in used if a not in atoms]
     if extra:
         raise AnalysisError("%s: atoms outside the vocabulary: %s" % (fn.qualname, extra))
@@ -253,7 +273,7 @@ def rule_r2(ctx: Ctx) -> None:
             return False
         if v["A_HAS"] != v["B_HAS"] and not v["FPID_NEQ"]:
             return False
-        return True
+        return _zero_consistent(v)
 
     expected_cls = {
         "kind": "VersionsOfDifferentKindError",
@@ -385,14 +405,18 @@ def rule_r4(ctx: Ctx) -> None:
                 top_calls[n] = st.value
     if defs_var is None:
         raise AnalysisError("_complete_read_function: read_definitions result not found")
+    def operands(e: ast.AST) -> List[str]:
+        if isinstance(e, ast.BinOp) and isinstance(e.op, ast.Add):
+            return operands(e.left) + operands(e.right)
+        return [norm(e)]
+
+    # C11 demands that the checks *cover* these sets; whether anything beyond them may be looked at is C19's business
     c1 = top_calls.get("_ensure_no_fixed_port_id_collisions")
-    ctx.check(c1 is not None and [norm(a) for a in c1.args] == ["%s.direct" % defs_var], fn.short, "collision check scope", "the port-ID collision check must run unconditionally over the target types", fn.where(), norm(c1) if c1 else None)
+    ops1 = operands(c1.args[0]) if c1 is not None and len(c1.args) == 1 else []
+    ctx.check("%s.direct" % defs_var in ops1, fn.short, "collision check scope", "the port-ID collision check must run unconditionally over (at least) the target types", fn.where(), norm(c1) if c1 else None)
     c2 = top_calls.get("_ensure_minor_version_compatibility")
-    good = False
-    if c2 is not None and len(c2.args) == 1 and isinstance(c2.args[0], ast.BinOp) and isinstance(c2.args[0].op, ast.Add):
-        sides = sorted([norm(c2.args[0].left), norm(c2.args[0].right)])
-        good = sides == sorted(["%s.direct" % defs_var, "%s.transitive" % defs_var])
-    ctx.check(good, fn.short, "compatibility check scope", "the minor-version check must run unconditionally over direct + transitive types", fn.where(), norm(c2) if c2 else None)
+    ops2 = operands(c2.args[0]) if c2 is not None and len(c2.args) == 1 else []
+    ctx.check({"%s.direct" % defs_var, "%s.transitive" % defs_var} <= set(ops2), fn.short, "compatibility check scope", "the minor-version check must run unconditionally over (at least) direct + transitive types", fn.where(), norm(c2) if c2 else None)
     rets = [n for n in body if isinstance(n, ast.Return)]
     ctx.check(len(rets) == 1 and norm(rets[0].value) == defs_var and body.index(rets[0]) > max(body.index(s) for s in body if isinstance(s, ast.Expr) and isinstance(s.value, ast.Call) and s.value in top_calls.values()), fn.short, "checks precede the return", "results are returned only after both checks", fn.where(), nontrivial=False)
 
